@@ -2,128 +2,10 @@
 package main
 
 import (
-	"encoding/json"
-	"flag"
-	"fmt"
 	"os"
-	"runtime/debug"
-	"time"
 
 	"hx/lib"
+	_ "hx/props/c09"
 )
 
-// Ctx is what a property runner gets.
-type Ctx struct {
-	Prop   string
-	Tier   string
-	Seed   uint64
-	R      *lib.Rand
-	Res    *lib.Result
-	Replay string
-	Start  time.Time
-	model  *lib.Model
-}
-
-func (c *Ctx) Thorough() bool { return c.Tier == "thorough" }
-
-// Scale picks the case count for the tier.
-func (c *Ctx) Scale(quick, thorough int) int {
-	if c.Thorough() {
-		return thorough
-	}
-	return quick
-}
-
-// Model starts the Lean driver on first use.
-func (c *Ctx) Model() *lib.Model {
-	if c.model == nil {
-		m, err := lib.StartModel()
-		if err != nil {
-			fmt.Fprintln(os.Stderr, "cannot start model driver:", err)
-			os.Exit(3)
-		}
-		c.model = m
-	}
-	return c.model
-}
-
-// HasModel is false when the check could not build the driver (the oracle still runs).
-func (c *Ctx) HasModel() bool { return os.Getenv("HX_NO_MODEL") == "" }
-
-// Ask queries the model; a dead driver is fatal (exit 3 = infrastructure error).
-func (c *Ctx) Ask(line string) string {
-	s, err := c.Model().Ask(line)
-	if err != nil {
-		fmt.Fprintln(os.Stderr, "model driver error:", err, "on line:", trunc(line, 300))
-		os.Exit(3)
-	}
-	return s
-}
-
-func trunc(s string, n int) string {
-	if len(s) > n {
-		return s[:n] + "..."
-	}
-	return s
-}
-
-// Guard runs f, converting a panic of the implementation into a failure record.
-func (c *Ctx) Guard(key string, input interface{}, f func()) (ok bool) {
-	defer func() {
-		if r := recover(); r != nil {
-			c.Res.Fail(lib.Failure{Kind: "oracle", Key: "panic:" + key, Desc: fmt.Sprintf("panic: %v\n%s", r, trunc(string(debug.Stack()), 1500)), Input: input})
-			ok = false
-		}
-	}()
-	f()
-	return true
-}
-
-var runners = map[string]func(*Ctx){}
-
-func main() {
-	if len(os.Args) < 2 {
-		fmt.Fprintln(os.Stderr, "usage: hx <property> [flags]")
-		os.Exit(2)
-	}
-	prop := os.Args[1]
-	fs := flag.NewFlagSet("hx", flag.ExitOnError)
-	tier := fs.String("tier", "quick", "quick|thorough")
-	seed := fs.Uint64("seed", 1, "seed")
-	out := fs.String("out", "", "result file")
-	replay := fs.String("replay", "", "replay file")
-	fs.Parse(os.Args[2:])
-	run, ok := runners[prop]
-	if !ok {
-		fmt.Fprintln(os.Stderr, "unknown property", prop)
-		os.Exit(2)
-	}
-	cx := &Ctx{Prop: prop, Tier: *tier, Seed: *seed, R: lib.NewRand(*seed), Res: lib.NewResult(prop, *tier, *seed), Replay: *replay, Start: time.Now()}
-	run(cx)
-	if cx.model != nil {
-		cx.model.Close()
-	}
-	if *out != "" {
-		if err := cx.Res.Write(*out); err != nil {
-			fmt.Fprintln(os.Stderr, err)
-			os.Exit(3)
-		}
-	}
-	fmt.Printf("hx %s: evaluations=%d distinct=%d corr=%d failures=%d\n", prop, cx.Res.Evaluations, cx.Res.Distinct, cx.Res.CorrChecked, len(cx.Res.Failures))
-}
-
-// replayInput reads the "input" field of a replay file written by bin/check.
-func replayInput(path string) string {
-	b, err := os.ReadFile(path)
-	if err != nil {
-		fmt.Fprintln(os.Stderr, err)
-		os.Exit(3)
-	}
-	var m map[string]interface{}
-	if err := json.Unmarshal(b, &m); err != nil {
-		fmt.Fprintln(os.Stderr, err)
-		os.Exit(3)
-	}
-	s, _ := m["input"].(string)
-	return s
-}
+func main() { lib.Main(os.Args[1:]) }
